@@ -509,9 +509,10 @@ type tv struct {
 }
 
 type linIn struct {
-	kind     byte // w r d s c
+	kind     byte // w r d s c; in weakened histories also p q (the two instants of a read) and h n (delete on the hot / the snapshot store)
 	vals     []tv
 	min, max int64
+	id       int // links the two halves of a split operation
 }
 
 type linState struct{ snap, hot string }
@@ -631,6 +632,139 @@ var linModelProto = porcupine.Model{
 		return "clear snapshot"
 	},
 }
+
+// ---- weaker model: operations that touch both stores at two instants
+//
+// The cache keeps a key's values in two stores (hot, retained/in-flight snapshot). Values looks both entries up
+// atomically but copies their contents one after the other, and DeleteRange filters the hot store and then the
+// retained snapshot store. A weakened history splits such an operation into two steps with the interval of the
+// original: a read observes each store at one of two instants (each store individually consistent; if a swap
+// or clear happens between the instants only a one-instant view is accepted), a delete takes effect on the hot
+// store first and on the snapshot store later.
+
+type splitState struct {
+	snap, hot string
+	epoch     int    // swaps and clears so far
+	pend      string // pending halves, sorted: r<id>~<epoch>~<snap>~<hot>; or d<id>;
+}
+
+func pendAdd(pend, e string) string {
+	l := append(strings.Split(strings.TrimSuffix(pend, ";"), ";"), e)
+	if pend == "" {
+		l = []string{e}
+	}
+	sort.Strings(l)
+	return strings.Join(l, ";") + ";"
+}
+
+// pendTake removes the entry with the given prefix and returns it.
+func pendTake(pend, prefix string) (string, string, bool) {
+	if pend == "" {
+		return pend, "", false
+	}
+	l := strings.Split(strings.TrimSuffix(pend, ";"), ";")
+	for i, e := range l {
+		if strings.HasPrefix(e, prefix) {
+			rest := append(append([]string{}, l[:i]...), l[i+1:]...)
+			if len(rest) == 0 {
+				return "", e, true
+			}
+			return strings.Join(rest, ";") + ";", e, true
+		}
+	}
+	return pend, "", false
+}
+
+var splitModel = porcupine.Model{
+	Init: func() interface{} { return splitState{} },
+	Step: func(state, input, output interface{}) (bool, interface{}) {
+		st := state.(splitState)
+		in := input.(linIn)
+		switch in.kind {
+		case 'w':
+			st.hot = encTV(mergeTV(decTV(st.hot), in.vals))
+			return true, st
+		case 'r':
+			return encTV(mergeTV(decTV(st.snap), decTV(st.hot))) == encTV(output.([]tv)), st
+		case 'd':
+			st.snap, st.hot = encTV(filterTV(decTV(st.snap), in.min, in.max)), encTV(filterTV(decTV(st.hot), in.min, in.max))
+			return true, st
+		case 's':
+			st.snap, st.hot = st.hot, ""
+			st.epoch++
+			return true, st
+		case 'c':
+			st.snap = ""
+			st.epoch++
+			return true, st
+		case 'p':
+			st.pend = pendAdd(st.pend, fmt.Sprintf("r%d~%d~%s~%s", in.id, st.epoch, st.snap, st.hot))
+			return true, st
+		case 'q':
+			rest, e, ok := pendTake(st.pend, fmt.Sprintf("r%d~", in.id))
+			if !ok {
+				return false, st
+			}
+			f := strings.SplitN(e, "~", 4)
+			var e1 int
+			fmt.Sscanf(f[1], "%d", &e1)
+			s1, h1 := decTV(f[2]), decTV(f[3])
+			s2, h2 := decTV(st.snap), decTV(st.hot)
+			got := encTV(output.([]tv))
+			st.pend = rest
+			if encTV(mergeTV(s1, h1)) == got || encTV(mergeTV(s2, h2)) == got {
+				return true, st
+			}
+			if e1 == st.epoch && (encTV(mergeTV(s1, h2)) == got || encTV(mergeTV(s2, h1)) == got) {
+				return true, st
+			}
+			return false, st
+		case 'h':
+			st.hot = encTV(filterTV(decTV(st.hot), in.min, in.max))
+			st.pend = pendAdd(st.pend, fmt.Sprintf("d%d", in.id))
+			return true, st
+		case 'n':
+			rest, _, ok := pendTake(st.pend, fmt.Sprintf("d%d", in.id))
+			if !ok {
+				return false, st
+			}
+			st.pend = rest
+			st.snap = encTV(filterTV(decTV(st.snap), in.min, in.max))
+			return true, st
+		}
+		return false, st
+	},
+	Equal: func(a, b interface{}) bool { return a.(splitState) == b.(splitState) },
+}
+
+// weaken splits the reads and/or the deletes of a history into their two halves.
+func weaken(h []porcupine.Operation, reads, deletes bool) []porcupine.Operation {
+	var out []porcupine.Operation
+	for i, o := range h {
+		in := o.Input.(linIn)
+		switch {
+		case in.kind == 'r' && reads:
+			a, b := o, o
+			a.Input, a.Output = linIn{kind: 'p', id: i}, nil
+			b.Input = linIn{kind: 'q', id: i}
+			out = append(out, a, b)
+		case in.kind == 'd' && deletes:
+			a, b := o, o
+			a.Input = linIn{kind: 'h', id: i, min: in.min, max: in.max}
+			b.Input = linIn{kind: 'n', id: i, min: in.min, max: in.max}
+			out = append(out, a, b)
+		default:
+			out = append(out, o)
+		}
+	}
+	return out
+}
+
+func splitExplains(h []porcupine.Operation, reads, deletes bool) bool {
+	return porcupine.CheckOperationsTimeout(splitModel, weaken(h, reads, deletes), 20*time.Second) == porcupine.Ok
+}
+
+const twoStoresNote = "a key's values live in two stores (hot and retained snapshot); Values copies the snapshot entry and the hot entry one after the other, DeleteRange filters the hot store and then the retained snapshot store, neither under a lock the other respects"
 
 // ---- world
 
@@ -1471,7 +1605,13 @@ func exec(r *hx.Run, prog []json.RawMessage) {
 				for _, o := range h {
 					fmt.Fprintf(&b, "\n    c%d [%d,%d] %s", o.ClientId, o.Call, o.Return, linModel.DescribeOperation(o.Input, o.Output))
 				}
-				if porcupine.CheckOperationsTimeout(truncModel, w.hist[k], 20*time.Second) == porcupine.Ok {
+				if splitExplains(w.hist[k], true, false) {
+					r.Violate("C09:read-not-atomic-across-stores", sigOf(h), "the history of key%d (%q) has no linearization against {snapshot map, hot map, hot wins}; it has one if a Values read may observe the hot store and the snapshot store at two different instants of its interval (%s):%s", k, keyNames[k], twoStoresNote, b.String())
+				} else if splitExplains(w.hist[k], false, true) {
+					r.Violate("C09:delete-not-atomic-across-stores", sigOf(h), "the history of key%d (%q) has no linearization against {snapshot map, hot map, hot wins}; it has one if a DeleteRange takes effect on the hot store and on the retained snapshot store at two different instants of its interval (%s):%s", k, keyNames[k], twoStoresNote, b.String())
+				} else if splitExplains(w.hist[k], true, true) {
+					r.Violate("C09:read-not-atomic-across-stores", "with-split-delete:"+sigOf(h), "the history of key%d (%q) has no linearization against {snapshot map, hot map, hot wins}; it has one only if both a Values read observes the two stores at two instants and a DeleteRange takes effect on them at two instants (%s):%s", k, keyNames[k], twoStoresNote, b.String())
+				} else if porcupine.CheckOperationsTimeout(truncModel, w.hist[k], 20*time.Second) == porcupine.Ok {
 					r.Violate("C09:read-truncated", sigOf(h), "the history of key%d (%q) has no linearization against {snapshot map, hot map, hot wins}; it has one if a read may return the snapshot values plus only a part of the hot values (Values sizes its buffer from entry.count() and copies later; when the entry has grown or was reordered in between, the copy is cut short):%s", k, keyNames[k], b.String())
 				} else if lostWriteExplains(w.hist[k]) {
 					r.Violate(lostClass, sigOf(h), "the history of key%d (%q) has no linearization against {snapshot map, hot map, hot wins}; it has one if some WriteMulti that overlapped a DeleteRange of the key (other time range) stored nothing although it returned without error: %s:%s", k, keyNames[k], lostNote, b.String())
